@@ -25,6 +25,7 @@ import (
 	"strconv"
 	"strings"
 	"sync"
+	"sync/atomic"
 	"syscall"
 	"time"
 
@@ -83,7 +84,7 @@ func main() {
 		Run:     run,
 		Class:   class,
 		Workers: 8,
-		Timeout: 40 * time.Second,
+		Timeout: 240 * time.Second,
 		Rule: "mutation fuzz of valid uripost/raw/uri/jsonline/grpc-json ammo files (truncate, flip, duplicate lines, negate/inflate size fields, " +
 			"break header brackets, splice formats, unicode spaces) + raw random bytes through the real providers (NewProvider, Run, Acquire) with " +
 			"recover, watchdog and a child process under RLIMIT_AS for huge announced sizes; scenario request lists (leading sleep, unknown names, " +
@@ -98,8 +99,43 @@ func main() {
 	})
 }
 
-// run dispatches one input line to the real code.
+// watchdogs: every time limit of this harness goes through wd. An observation that rests on an expired watchdog
+// (hang, no first ammo, child without answer) is not believed at once: the case is run again, alone, with all
+// limits five times as long - on a loaded machine a slow answer must not pass for a hang.
+var (
+	wdScale   int32 = 1
+	retryMu   sync.Mutex
+	confirmed int // guarded by retryMu
+)
+
+func wd(d time.Duration) time.Duration { return d * time.Duration(atomic.LoadInt32(&wdScale)) }
+
+func restsOnWatchdog(obs string) bool {
+	return strings.Contains(obs, "hang") || obs == "HANG" || strings.Contains(obs, "end=noammo") || strings.HasPrefix(obs, "CHILDERR")
+}
+
 func run(input string) string {
+	obs := runOnce(input)
+	if !restsOnWatchdog(obs) || os.Getenv("C13_IN_CHILD") != "" {
+		return obs
+	}
+	retryMu.Lock()
+	defer retryMu.Unlock()
+	// two observations confirmed by the long run establish that the tree really hangs: the rest is not run twice
+	if confirmed >= 2 {
+		return obs
+	}
+	atomic.StoreInt32(&wdScale, 5)
+	defer atomic.StoreInt32(&wdScale, 1)
+	again := runOnce(input)
+	if restsOnWatchdog(again) {
+		confirmed++
+	}
+	return again
+}
+
+// runOnce dispatches one input line to the real code.
+func runOnce(input string) string {
 	setup()
 	kv := drv.KV(input)
 	switch kv["k"] {
@@ -215,6 +251,9 @@ func childMain(mode string, args []string) {
 			}
 		}
 		_ = os.Setenv("C13_IN_CHILD", "1")
+		if n, err := strconv.Atoi(os.Getenv("C13_WD_SCALE")); err == nil && n >= 1 && n <= 10 {
+			atomic.StoreInt32(&wdScale, int32(n))
+		}
 		done := make(chan string, 1)
 		go func() {
 			defer func() {
@@ -235,7 +274,7 @@ func childMain(mode string, args []string) {
 		select {
 		case o := <-done:
 			fmt.Println("OBS " + o)
-		case <-time.After(wait):
+		case <-time.After(wd(wait)):
 			fmt.Println("OBS end=hang")
 		}
 		os.Exit(0)
@@ -257,10 +296,10 @@ func runChild(mode string, args ...string) string {
 	if err != nil {
 		return "CHILDERR " + err.Error()
 	}
-	ctx, cancel := context.WithTimeout(context.Background(), 25*time.Second)
+	ctx, cancel := context.WithTimeout(context.Background(), wd(25*time.Second))
 	defer cancel()
 	cmd := exec.CommandContext(ctx, exe, append([]string{childFlag, mode}, args...)...)
-	cmd.Env = append(os.Environ(), "GOMEMLIMIT=2GiB", "GOTRACEBACK=single")
+	cmd.Env = append(os.Environ(), "GOMEMLIMIT=2GiB", "GOTRACEBACK=single", fmt.Sprintf("C13_WD_SCALE=%d", atomic.LoadInt32(&wdScale)))
 	var stdout, stderr bytes.Buffer
 	cmd.Stdout = &stdout
 	cmd.Stderr = &stderr
